@@ -250,8 +250,11 @@ def run_property(pid, tier="quick", seed=0, only=None, jobs=None, no_replay=Fals
         try:
             for name, ok, detail in chk(C):
                 finite_rows.append({"name": name, "ok": bool(ok), "detail": detail})
+                # native histories / bounded enumerations on the real code are evidence, not proof: they are reported with
+                # the bounded checks and never counted among the obligations proved
+                fkind = "native-check" if name.startswith("native") else "finite-check"
                 a = byname.setdefault(name, {"name": name, "clause": detail if isinstance(detail, str) else str(detail),
-                                             "fn": "finite-check", "vcs": 0, "discharged": 0, "refuted": [],
+                                             "fn": fkind, "vcs": 0, "discharged": 0, "refuted": [],
                                              "undecided": 0, "secs": 0.0, "backends": {"enumeration"}})
                 a["vcs"] += 1
                 vcs += 1
@@ -274,6 +277,8 @@ def run_property(pid, tier="quick", seed=0, only=None, jobs=None, no_replay=Fals
         # a bounded contract merged in from an extra set under "<key>#<pid>": its obligations carry the plain key
         if f.bounded and "#" in k and not (C.fns.get(f.key) is not None and C.fns[f.key].verified):
             bounded_fns[f.key] = f.bounded
+    if any(a["fn"] == "native-check" for a in byname.values()):
+        bounded_fns["native-check"] = "BOUNDED: histories / enumerations run natively on the real code (finite; not proofs)"
     n_obl = len([n for n, a in byname.items() if a["fn"] not in bounded_fns])
     n_dis = 0
     n_b_obl = len(byname) - n_obl
